@@ -114,6 +114,18 @@ def gen(repo) -> str:
     # Template.render_context: are the extra keyword arguments intersected with the reserved names?
     rc = find_func(find_class(tt, "Template", rel_t).body, "render_context", rel_t)
     kw_checked = False
+    kw_unconditional = False
+    def _is_kw_check(n):
+        return (isinstance(n, ast.Call) and isinstance(n.func, ast.Attribute) and n.func.attr == "intersection"
+                and isinstance(n.func.value, ast.Attribute) and n.func.value.attr == "reserved_names"
+                and len(n.args) == 1 and isinstance(n.args[0], ast.Name) and rc.args.kwarg is not None
+                and n.args[0].id == rc.args.kwarg.arg)
+    # the check must be a statement of the function body itself, not nested under a condition on the context
+    for st in rc.body:
+        if isinstance(st, (ast.Assign, ast.Expr)) and any(_is_kw_check(m) for m in ast.walk(st)):
+            kw_unconditional = True
+        if isinstance(st, ast.If) and any(_is_kw_check(m) for m in ast.walk(st.test)):
+            kw_unconditional = True
     for n in ast.walk(rc):
         if isinstance(n, ast.Call) and isinstance(n.func, ast.Attribute) and n.func.attr == "intersection" \
                 and isinstance(n.func.value, ast.Attribute) and n.func.value.attr == "reserved_names" \
@@ -191,6 +203,20 @@ def gen(repo) -> str:
         raise RegenError("%s: Context.get is not `self._data.get(key, builtins.__dict__.get(key, default))`: %s"
                          % (rel_r, ast.unparse(gt)[:120]))
 
+    # runtime._include_file: are the keyword arguments (<%include args=…>, Namespace.include_file) intersected with the
+    # included template's reserved names, as a statement of the function body itself?
+    inc = find_func(tr.body, "_include_file", rel_r)
+    inc_checks = False
+    if inc.args.kwarg is not None:
+        for st in inc.body:
+            if isinstance(st, (ast.Assign, ast.Expr, ast.If)):
+                tgt = st.test if isinstance(st, ast.If) else st
+                for m in ast.walk(tgt):
+                    if (isinstance(m, ast.Call) and isinstance(m.func, ast.Attribute) and m.func.attr == "intersection"
+                            and isinstance(m.func.value, ast.Attribute) and m.func.value.attr == "reserved_names"
+                            and len(m.args) == 1 and isinstance(m.args[0], ast.Name) and m.args[0].id == inc.args.kwarg.arg):
+                        inc_checks = True
+
     out = [HEADER % "mako/codegen.py (TOPLEVEL_DECLARED, RESERVED_NAMES, _Identifiers, _GenerateRenderMethod), mako/template.py (Template.reserved_names, render_context), mako/runtime.py (Context.__getitem__, Context.get)",
            "", "namespace MakoModel.Generated.Names", "",
            "/-- `codegen.TOPLEVEL_DECLARED` (sorted) -/",
@@ -205,6 +231,10 @@ def gen(repo) -> str:
            "def reservedCheckedCollections : List String := [" + ", ".join('"%s"' % c for c in sorted(checked)) + "]",
            "/-- `Template.render_context` intersects its `**kwargs` with the reserved names -/",
            "def renderContextChecksKwargs : Bool := " + ("true" if kw_checked else "false"),
+           "/-- … as a statement of the function body itself (not only for a context without `_with_template`) -/",
+           "def renderContextKwargsCheckUnconditional : Bool := " + ("true" if kw_unconditional else "false"),
+           "/-- `runtime._include_file` intersects its `**kwargs` with the included template's reserved names -/",
+           "def includeChecksKwargs : Bool := " + ("true" if inc_checks else "false"),
            "/-- `write_variable_declares` iterates `sorted(to_write)`; `__M_locals` is built from `sorted(argument_declared)` -/",
            "def declaresSorted : Bool := " + ("true" if declares_sorted else "false"),
            "def mlocalsSorted : Bool := " + ("true" if ml_sorted else "false"),
